@@ -268,7 +268,7 @@ func (g *vfGen) duration() time.Duration {
 
 // ---- expressions
 
-var vfRegexes = []string{"a.*", "^x$", `a\/b`, "(?i)q", "[0-9]+"}
+var vfRegexes = []string{"a.*", "^x$", `a\/b`, "(?i)q", "[0-9]+", `a\\\/b`, `a\\/b`}
 
 func (g *vfGen) regex() *RegexLiteral {
 	r := vfRegexes[g.pick(len(vfRegexes))]
